@@ -1,8 +1,9 @@
 ---------------------------- MODULE Trace_Sandbox ----------------------------
-EXTENDS SandboxContract
+EXTENDS SandboxContract, Json, IOUtils
 VARIABLES l, ok
 EvOK(e) == IF e.ev = "spec" THEN SpecOK(e) ELSE IF e.ev = "prep" THEN PrepOK(e) ELSE TRUE
-T == INSTANCE TraceStateless WITH EventOK <- EvOK
+TraceData == ndJsonDeserialize(IOEnv.TRACE)
+T == INSTANCE TraceStateless WITH EventOK <- EvOK, Trace <- TraceData
 Spec == T!TSSpec
 Accepted == T!TSAccepted
 =============================================================================
